@@ -215,7 +215,11 @@ static char *emit_mu_state (struct emit_buf *b, nsync_mu *mu,
                 emit_waiters (b, mu->waiters);
         }
         if (acquired) {
-                ATM_STORE_REL (&mu->word, word); /* release store */
+                /* Release spinlock with a CAS: other bits may have changed. */
+                uint32_t old_word = ATM_LOAD (&mu->word);
+                while (!ATM_CAS_REL (&mu->word, old_word, old_word & ~MU_SPINLOCK)) {
+                        old_word = ATM_LOAD (&mu->word);
+                }
         }
         emit_c (b, 0);
         IGNORE_RACES_END ();
